@@ -142,7 +142,9 @@ def expr_case(cid, rec):
         # value claim; the database must say `unevaluated` or exactly what the compiler computes.
         c["lines"].append("#define M_%d %s" % (cid, text(1)))
         c["items"].append(item("M", "M_%d" % cid, None, mu=True))
-        if d == "uns":
+        # input class C07-unsigned-arithmetic: an operand of unsigned type takes part, and the unsigned
+        # (modulo 2^32) computation differs from the signed one (that is what the classes uns / big say)
+        if has_node(t, "ulit") or any(has_node(t, "big", b) for b in X.BIG_UNSIGNED):
             c["classes"] = ["C07-unsigned-arithmetic"]
     c["text"] = X.join(X.toks_min(t))
     return c
